@@ -62,6 +62,13 @@ CORPUS = [
      "V = VForm(3)\nu, v = V.basisfuns()\nf = V.input('f')\n"
      "B = V.let('B', V.W * dot(V.JacInv, V.JacInv.T), symmetric=True)\n"
      "V.add(B.dot(grad(u, parametric=True)).dot(grad(v, parametric=True)) + f * B[2, 0] * u * v)"),
+    ('precedence-div-by-product-neg-powers',
+     "V = VForm(2)\nu, v = V.basisfuns()\nf = V.input('f')\nc = V.parameter('c')\nx = V.Geo\n"
+     "V.add((u * v / (c * f) + (f ** -2) * u * v / (f / (c * 2.0)) - (-(f * c)) ** 3 * u * v"
+     " + 1.0 / (f * c) * u * (-v) / ((-c) ** -1) + (f - c / (f * 2.0)) / (f / c / 2.0) * u * v - u / (f * (x[0] * x[0] + 2.0)) * -v) * dx)"),
+    ('precedence-linear-1d',
+     "V = VForm(1, arity=1)\nu = V.basisfuns()\nf = V.input('f')\nc = V.parameter('c')\n"
+     "V.add((u / (f * c) / (c / (f * f)) - -(u * f) / -(c * c) + (f / c) ** -3 * Dx(u, 0) / (f * -c)) * dx)"),
     # documented builtin functions that reach libm (and, vectorised under -ffast-math, libmvec)
     ('builtins-exp-sin-cos-log-tan',
      "V = VForm(2)\nu, v = V.basisfuns()\nf = V.input('f')\nc = V.parameter('c')\nx = V.Geo\n"
@@ -81,6 +88,41 @@ PG_FORMS = [
      [([1, 1, 1], [2, 1, 3], 'random'), ([2, 3, 1], [1, 1, 2], 'identity'), ([2, 2, 2], [2, 2, 2], 'random'),
       ([1, 2, 1], [2, 1, 2], 'identity')]),
 ]
+
+def precedence_form(rng, k):
+    """operator-precedence stress: divisions by products and quotients, nested divisions, negative integer powers,
+    unary minus inside products and powers; atoms are positive so that most values are finite"""
+    atoms = ['f', 'c', '2.0', '0.5', '(x[0] * x[0] + 1.5)', 'f', 'c']
+
+    def E(depth):
+        if depth <= 0 or rng.random() < 0.2:
+            return rng.choice(atoms)
+        a, b, c2 = E(depth - 1), E(depth - 1), E(depth - 1)
+        k2 = rng.choice(['div_prod', 'div_quot', 'prod_div_prod', 'negpow', 'neg_in_prod', 'neg_pow', 'div_neg', 'sub_div',
+                         'inv_prod', 'div_div', 'mul', 'add'])
+        return {
+            'div_prod': '(%s / (%s * %s))' % (a, b, c2),
+            'div_quot': '(%s / (%s / %s))' % (a, b, c2),
+            'prod_div_prod': '((%s * %s) / (%s * %s))' % (a, b, c2, a),
+            'negpow': '((%s * %s) ** -%d)' % (a, b, rng.choice([1, 2, 3])),
+            'neg_in_prod': '(-(%s) * %s * -(%s))' % (a, b, c2),
+            'neg_pow': '((-(%s * %s)) ** %d)' % (a, b, rng.choice([2, 3])),
+            'div_neg': '(%s / -(%s * %s))' % (a, b, c2),
+            'sub_div': '(%s + %s / (%s * %s))' % (a, b, c2, a),
+            'inv_prod': '(1.0 / (%s * %s))' % (a, b),
+            'div_div': '(%s / %s / %s)' % (a, b, c2),
+            'mul': '(%s * %s)' % (a, b),
+            'add': '(%s + %s)' % (a, b),
+        }[k2]
+    d = rng.choice([1, 2])
+    arity = rng.choice([1, 2, 2])
+    lines = ['V = VForm(%d%s)' % (d, ', arity=1' if arity == 1 else ''),
+             'u, v = V.basisfuns()' if arity == 2 else 'u = V.basisfuns()',
+             "f = V.input('f')", "c = V.parameter('c')", 'x = V.Geo']
+    bf = 'u * v' if arity == 2 else 'u'
+    lines.append('V.add(%s * %s / (%s * %s) * dx)' % (E(2), bf, E(1), E(1)))
+    return {'id': 'p%03d' % k, 'code': '\n'.join(lines), 'stream': 'precedence', 'kind': 'precedence', 'dim': d, 'arity': arity}
+
 
 SHIPPED = ['V = mass_vf(2)', 'V = mass_vf(3)', 'V = stiffness_vf(2)', 'V = stiffness_vf(3)', 'V = heat_st_vf(2)',
            'V = heat_st_vf(3)', 'V = wave_st_vf(2)', 'V = wave_st_vf(3)', 'V = divdiv_vf(2)', 'V = divdiv_vf(3)',
@@ -323,6 +365,236 @@ def check_form_layout_on_impl(spec, r):
 
 
 # ---------------------------------------------------------------------------------------------
+# printed code <-> expression tree: a C/Cython expression parser (independent of the generator)
+# ---------------------------------------------------------------------------------------------
+import re as _re
+
+_TOK = _re.compile(r'\s*(?:(\d+\.?\d*(?:[eE][-+]?\d+)?|\.\d+(?:[eE][-+]?\d+)?)|([A-Za-z_][\w\.]*)|(.))')
+
+
+class CodeParseError(Exception):
+    pass
+
+
+def c_tokens(text):
+    out = []
+    pos = 0
+    text = text.rstrip()
+    while pos < len(text):
+        m = _TOK.match(text, pos)
+        if not m:
+            raise CodeParseError('cannot tokenise at %d' % pos)
+        pos = m.end()
+        if m.group(1) is not None:
+            out.append(('num', m.group(1)))
+        elif m.group(2) is not None:
+            out.append(('id', m.group(2)))
+        else:
+            out.append(('op', m.group(3)))
+    return out
+
+
+def c_parse(text):
+    """Parse with the precedence of C / Cython arithmetic: unary minus binds tighter than * and /, these tighter
+    than + and -, binary operators associate to the left.  -> nested lists
+    ['O', op, x, y] | ['N', x] | ['F', name, x] | ['L', atom text]"""
+    toks = c_tokens(text)
+    pos = [0]
+
+    def peek():
+        return toks[pos[0]] if pos[0] < len(toks) else (None, None)
+
+    def take():
+        t = peek()
+        pos[0] += 1
+        return t
+
+    def expect(ch):
+        if take() != ('op', ch):
+            raise CodeParseError('expected %r' % ch)
+
+    def index_suffix():
+        # name[ ... ] : the bracket content is an index expression, kept as text
+        depth = 0
+        buf = ''
+        while True:
+            k, v = take()
+            if k is None:
+                raise CodeParseError('unterminated index')
+            buf += v
+            if (k, v) == ('op', '['):
+                depth += 1
+            elif (k, v) == ('op', ']'):
+                depth -= 1
+                if depth == 0:
+                    return buf
+
+    def atom():
+        k, v = peek()
+        if (k, v) == ('op', '-'):
+            take()
+            return ['N', atom()]
+        if (k, v) == ('op', '('):
+            take()
+            e = expr(1)
+            expect(')')
+            return e
+        if k == 'num':
+            take()
+            return ['L', repr(float(v))]
+        if k == 'id':
+            take()
+            if peek() == ('op', '('):
+                take()
+                e = expr(1)
+                expect(')')
+                return ['F', v, e]
+            if peek() == ('op', '['):
+                return ['L', v + index_suffix()]
+            return ['L', v]
+        raise CodeParseError('unexpected token %r' % (v,))
+
+    PREC = {'+': 1, '-': 1, '*': 2, '/': 2}
+
+    def expr(lvl):
+        a = atom()
+        while True:
+            k, v = peek()
+            if k == 'op' and v in PREC and PREC[v] >= lvl:
+                take()
+                b = expr(PREC[v] + 1)
+                a = ['O', v, a, b]
+            else:
+                return a
+    e = expr(1)
+    if pos[0] != len(toks):
+        raise CodeParseError('trailing tokens')
+    return e
+
+
+def expected_tree(sk):
+    """the tree the generator was asked to print: operators as in the expression, leaves as their own printed text parses"""
+    if sk[0] == 'O':
+        return ['O', sk[1], expected_tree(sk[2]), expected_tree(sk[3])]
+    if sk[0] == 'N':
+        return ['N', expected_tree(sk[1])]
+    if sk[0] == 'F':
+        return ['F', sk[1], expected_tree(sk[2])]
+    t = c_parse(sk[1])
+    return t
+
+
+def check_printed(printed):
+    """-> None or (text, why)"""
+    for txt, sk in printed:
+        try:
+            got = c_parse(txt)
+            exp = expected_tree(sk)
+        except CodeParseError as e:
+            return (txt, 'the printed code does not parse as a C expression (%s)' % e)
+        if got != exp:
+            return (txt, 'read with the operator precedence of C the printed code is a different expression tree')
+    return None
+
+
+# ---- exact tie of the Coq printer (coq/C01/Printer.v: print) to the generated characters ---------------------
+PRINT_HEADER = '''From Coq Require Import List String Bool Arith.
+From Verif.C06 Require Import Model.
+From Verif.C01 Require Import Model Kernel Printer.
+Import ListNotations.
+Open Scope nat_scope.
+Definition operb (a b : oper) : bool :=
+  match a, b with OAdd, OAdd | OSub, OSub | OMul, OMul | ODiv, ODiv => true | _, _ => false end.
+(* the lexer cannot tell the binary from the prefix minus: both are the character '-' *)
+Definition norm (t : tok nat) : tok nat := match t with TMinus _ => TOp nat OSub | _ => t end.
+Definition tokb (a b : tok nat) : bool :=
+  match norm a, norm b with
+  | TNum _ x, TNum _ y => Nat.eqb x y
+  | TLoc _ (LField x), TLoc _ (LField y) => Nat.eqb x y
+  | TPD _ _ [x], TPD _ _ [y] => Nat.eqb x y
+  | TFn _ f, TFn _ g => String.eqb f g
+  | TLP _, TLP _ => true
+  | TRP _, TRP _ => true
+  | TOp _ o, TOp _ o' => operb o o'
+  | _, _ => false
+  end.
+Fixpoint toksb (a b : list (tok nat)) : bool :=
+  match a, b with [], [] => true | x :: a', y :: b' => tokb x y && toksb a' b' | _, _ => false end.
+Definition print_ok (c : cexpr nat) (ts : list (tok nat)) : bool := toksb (print nat c) ts.
+Fixpoint bad (cs : list (nat * bool)) : list nat :=
+  match cs with [] => [] | (k, b) :: r => if b then bad r else k :: bad r end.
+'''
+
+_PDG = r'\((?:VD\w+\[[^\]\[]*\])(?: \* VD\w+\[[^\]\[]*\])*\)'
+_NUM = r'\d+\.?\d*(?:[eE][-+]?\d+)?|\.\d+(?:[eE][-+]?\d+)?'
+_IDX = r'[A-Za-z_][\w\.]*(?:\[[^\]\[]*\])?'
+_LEX = _re.compile(r'\s*(?:(%s)|(%s)|(%s)|(.))' % (_PDG, _NUM, _IDX))
+_OPN = {'+': 'OAdd', '-': 'OSub', '*': 'OMul', '/': 'ODiv'}
+
+
+def coq_print_case(txt, sk):
+    """-> 'print_ok <cexpr> <tokens>' or None when a leaf is outside the token classes of the printer model"""
+    atoms = {}
+
+    def aid(t):
+        return atoms.setdefault(t, len(atoms))
+
+    def cx(k):
+        if k[0] == 'O':
+            a, b = cx(k[2]), cx(k[3])
+            return None if a is None or b is None else '(COp nat %s %s %s)' % (_OPN[k[1]], a, b)
+        if k[0] == 'N':
+            a = cx(k[1])
+            return None if a is None else '(CNeg nat %s)' % a
+        if k[0] == 'F':
+            a = cx(k[2])
+            return None if a is None else '(CFn nat "%s" %s)' % (k[1], a)
+        t = k[1]
+        if _re.fullmatch(_PDG, t):
+            return '(CPD nat "" [%d])' % aid(t)
+        m = _re.fullmatch(r'(-?)(%s)' % _NUM, t)
+        if m:
+            c = '(CConst nat %d)' % aid(repr(float(m.group(2))))
+            return '(CNeg nat %s)' % c if m.group(1) else c          # -2.0 = minus sign + literal (exact in IEEE)
+        if _re.fullmatch(_IDX, t):
+            return '(CRead nat (LField %d))' % aid(t)
+        return None
+    c = cx(sk)
+    if c is None:
+        return None
+    toks = []
+    pos = 0
+    txt = txt.rstrip()
+    while pos < len(txt):
+        m = _LEX.match(txt, pos)
+        if not m:
+            return None
+        pos = m.end()
+        if m.group(1) is not None:
+            toks.append('TPD nat "" [%d]' % aid(m.group(1)))
+        elif m.group(2) is not None:
+            toks.append('TNum nat %d' % aid(repr(float(m.group(2)))))
+        elif m.group(3) is not None:
+            if txt[pos:pos + 1] == '(' and '[' not in m.group(3):
+                toks.append('TFn nat "%s"' % m.group(3))
+            else:
+                toks.append('TLoc nat (LField %d)' % aid(m.group(3)))
+        else:
+            ch = m.group(4)
+            if ch == '(':
+                toks.append('TLP nat')
+            elif ch == ')':
+                toks.append('TRP nat')
+            elif ch == '-':
+                toks.append('TMinus nat')
+            elif ch in _OPN:
+                toks.append('TOp nat %s' % _OPN[ch])
+            else:
+                return None
+    return 'print_ok %s %s' % (c, clist(toks))
+
+
+# ---------------------------------------------------------------------------------------------
 # layer 4
 # ---------------------------------------------------------------------------------------------
 
@@ -436,10 +708,12 @@ def judge(ctx, spec, res, stats):
     for inst in res.get('instances', []):
         ist = inst['status']
         stats['inst:' + ist.split(':')[0]] += 1
+        if inst.get('orientation') == -1:
+            stats['orientation_reversing_instances'] += 1
         key = (spec['code'], inst.get('seed'), json.dumps(inst.get('cfg'), sort_keys=True))
         if inst.get('cfg'):
             rep = dict(rep, cfg=inst['cfg'])
-            stats['two_space_orderings'] += 1
+            stats['two_space_orderings' if 'p0' in inst['cfg'] else 'forced_orientation'] += 1
         if ist.startswith(('InstantiateFail', 'AssembleFail')):
             ctx.count(key, nontrivial=True)
             ctx.report('impl:%s:%s' % (ist.replace(':', '-').lower(), res['header']['boundary'] and 'boundary' or 'volume'),
@@ -496,6 +770,15 @@ def run(ctx):
         'precompute_fields and combine every statement reads only what an earlier statement assigned, __init__ loaded, or a jet/weight/'
         'index/builtin, and nothing is assigned twice (checked on every generated form); the value of the generated `self.nqp = ...` line on '
         'degree lists of both spaces equals the model nqp_spaces (exact, in Coq)',
+        'printed code: for sampled emitted expressions the token stream of the generated characters equals [print] of the expression tree '
+        '(exact, in Coq; prefix and binary minus are the same character; a negative literal = minus sign + literal; the bracketed product of '
+        'gen_pderiv and an indexed reference are single tokens), and an independent C-precedence parser (harness/props/c01.py: c_parse) reads '
+        'EVERY printed expression of every generated form back to its tree',
+        'instances: the last instance of every form lies on an orientation-reversing geometry (x reflected or two coordinates swapped, '
+        'det J < 0), the first on an orientation-preserving one, others random (35% reversed); the boundary normal follows the library\'s '
+        'documented convention (outward for det J > 0, hence inward for det J < 0)',
+        'operator-precedence stress: two fixed corpus forms and 2 (thorough 30) generated forms per run with divisions by products and '
+        'quotients, nested divisions, negative integer powers, unary minus inside products and powers',
         'every quick run assembles two-space (Petrov-Galerkin) forms in 1-D/2-D/3-D on 17 FIXED degree orderings (space-1 degree higher, lower, '
         'equal, mixed per axis; identity and curved geometry) and compares them with the oracle at max-degree-over-both-spaces + 1 nodes per span',
         'cdef helpers (from_seq, next_lexicographic, intersect_intervals) are not callable from Python: they are tied through '
@@ -516,20 +799,23 @@ def run(ctx):
     gspecs = [s for s in gspecs if s['stream'] != 'library']
     for k, s in enumerate(gspecs):
         s['id'] = 'g%04d' % k
+    pspecs = [precedence_form(rng, k) for k in range(40 if thorough else 6)]
     corpus = [{'id': name, 'code': code, 'stream': 'corpus'} for name, code in CORPUS]
     shipped = [{'id': 'shipped%02d' % k, 'code': c, 'stream': 'shipped'} for k, c in enumerate(SHIPPED)]
     pgforms = [{'id': name, 'code': code, 'stream': 'corpus', 'seeds': [],
-                'configs': [{'seed': rng.randrange(10 ** 6), 'p0': p0, 'p1': p1, 'geo': geo} for (p0, p1, geo) in cfgs]}
+                'configs': [{'seed': rng.randrange(10 ** 6), 'p0': p0, 'p1': p1, 'geo': geo, 'orient': (-1 if k % 2 else 1)}
+                            for k, (p0, p1, geo) in enumerate(cfgs)]}
                for name, code, cfgs in PG_FORMS]
 
     # ---- layers 2/3: exact tie ------------------------------------------------------------------------------------
-    lay_forms = corpus + pgforms + shipped + gspecs
+    lay_forms = corpus + pgforms + shipped + gspecs + pspecs
     payload = gen_layout_payload(ctx, [{'id': s['id'], 'code': s['code']} for s in lay_forms])
     t0 = time.time()
     lout = ctx.impl.run(DRIVER, payload, timeout=1500)
     log('[C01] layout driver: %d forms in %.0fs' % (len(lay_forms), time.time() - t0))
     cases = layout_cases(payload, lout)
     accepted = []
+    print_cases = []
     for spec, r in zip(lay_forms, lout['forms']):
         if r['status'] != 'Ok':
             stats['layout-rejected'] += 1
@@ -541,6 +827,17 @@ def run(ctx):
         if bad:
             ctx.report('impl:layout:' + bad[0], bad[1], {'code': spec['code'], 'how': 'AsmGenerator(V, ...).generate(); var_ref / generated text',
                                                         'impl': {k: r[k] for k in ('arrays', 'kernel_reads', 'pre_writes', 'loads')}})
+        for txt, sk in r.get('printed', []):
+            if len(txt) <= 500 and len(print_cases) < (400 if thorough else 120):
+                pc = coq_print_case(txt, sk)
+                if pc is not None:
+                    print_cases.append(('form %s: print' % spec['id'], pc, {'code': spec['code'], 'printed': txt}))
+        pb = check_printed(r.get('printed', []))
+        stats['printed_expressions'] += len(r.get('printed', []))
+        if pb:
+            ctx.report('impl:printed-code:precedence', '%s: %s' % (pb[1], pb[0][:300]),
+                       {'code': spec['code'], 'how': 'AsmGenerator(V, ...).generate(); gen.gencode(expr) for every emitted scalar expression',
+                        'printed': pb[0][:2000]})
     files, chunks = [], []
     CH = 300
     for n, i in enumerate(range(0, len(cases), CH)):
@@ -554,7 +851,41 @@ def run(ctx):
     selftest = ('C01_selftest', HEADER + 'Definition cases : list (nat * bool) := [(0, sym_ok 3 [[0;1;2];[1;3;4];[2;4;5]]); '
                 '(1, sym_ok 3 [[0;1;2];[1;3;4];[2;5;4]]); (2, pd_ok 2 1 [1;0] [(0,2,0);(1,2,1)]); (3, pd_ok 2 1 [1;0] [(0,2,1);(1,2,0)])].\n'
                 'Eval vm_compute in bad cases.\n')
-    evald = ctx.coq_eval_many(files + [selftest])
+    # the Coq printer against the generated characters (token streams compared inside Coq)
+    pfiles, pchunks = [], []
+    for n, i in enumerate(range(0, len(print_cases), 150)):
+        chunk = print_cases[i:i + 150]
+        pchunks.append(chunk)
+        pfiles.append(('C01_print_%03d' % n, PRINT_HEADER + 'Open Scope string_scope.\nDefinition cases : list (nat * bool) := [\n'
+                       + ';\n'.join('(%d%%nat, %s)' % (k, c[1]) for k, c in enumerate(chunk)) + '].\nEval vm_compute in bad cases.\n'))
+    pself = ('C01_print_selftest', PRINT_HEADER + 'Open Scope string_scope.\nDefinition cases : list (nat * bool) := ['
+             '(0%nat, print_ok (COp nat ODiv (CRead nat (LField 0)) (COp nat OMul (CRead nat (LField 1)) (CConst nat 2))) '
+             '[TLP nat; TLoc nat (LField 0); TOp nat ODiv; TLP nat; TLoc nat (LField 1); TOp nat OMul; TNum nat 2; TRP nat; TRP nat]); '
+             '(1%nat, print_ok (COp nat ODiv (CRead nat (LField 0)) (COp nat OMul (CRead nat (LField 1)) (CConst nat 2))) '
+             '[TLP nat; TLoc nat (LField 0); TOp nat ODiv; TLoc nat (LField 1); TOp nat OMul; TNum nat 2; TRP nat])].\n'
+             'Eval vm_compute in bad cases.\n')
+    evald_all = ctx.coq_eval_many(files + pfiles + [pself, selftest])
+    evald = evald_all[:len(files)] + [evald_all[-1]]
+    pevald = evald_all[len(files):len(files) + len(pfiles)]
+    (_, psok, psout) = evald_all[-2]
+    ctx.obligations += 1
+    if psok and parse_coq_list_of_nat(psout) == [1]:
+        ctx.discharged += 1
+    else:
+        ctx.broken.append('harness self-test C01_print_selftest: a token stream without the inner brackets was not flagged (%s)' % psout[-300:])
+    for (name, ok, out), chunk in zip(pevald, pchunks):
+        ctx.obligations += 1
+        badidx = parse_coq_list_of_nat(out) if ok else None
+        if not ok or badidx is None:
+            ctx.broken.append('case file %s did not evaluate: %s' % (name, out[-600:]))
+            continue
+        ctx.discharged += 1
+        for b in badidx[:3]:
+            desc, _, rep = chunk[b]
+            ctx.broken.append('printer tie: the generated characters are not the token stream of the proved printer (%s)' % desc)
+            ctx.report('tie:printed-code:tokens', 'gencode_* prints %r, which is not the token stream of the printer model (coq/C01/Printer.v) for that '
+                       'expression tree; printed_code_parses_back no longer speaks about this code' % rep['printed'][:300], rep, found_input=True)
+    ctx.cov['print_cases'] = len(print_cases)
     (_, sok, sout) = evald[-1]
     ctx.obligations += 1
     if sok and parse_coq_list_of_nat(sout) == [1, 3]:
@@ -593,17 +924,25 @@ def run(ctx):
     acc_ids = {s['id'] for s in accepted}
     n_sh = 6 if thorough else 2
     n_inst = 3 if thorough else 2
+    def instances(s, n):
+        # the last instance of every form is forced onto an ORIENTATION-REVERSING geometry (det J < 0), the first onto an
+        # orientation-preserving one; the others draw the orientation at random
+        s['seeds'] = [rng.randrange(10 ** 6) for _ in range(max(0, n - 2))]
+        s['configs'] = [{'seed': rng.randrange(10 ** 6), 'orient': 1}, {'seed': rng.randrange(10 ** 6), 'orient': -1}][:max(1, n)][-n:]
     for s in shipped:
-        s['seeds'] = [rng.randrange(10 ** 6) for _ in range(n_sh)]
+        instances(s, n_sh)
     for s in corpus:
-        s['seeds'] = [rng.randrange(10 ** 6) for _ in range(n_inst)]
+        instances(s, n_inst)
     # freshly generated forms: accepted by the generator pass above, not huge
     fresh_pool = [s for s in gspecs if s['id'] in acc_ids and s['stream'] == 'grammar']
     n_fresh = 60 if thorough else 2
     n_fresh = int(os.environ.get('VERIF_C01_FRESH', n_fresh))      # development aid only
     fresh = fresh_pool[:n_fresh]
+    n_prec = 30 if thorough else 2
+    n_prec = int(os.environ.get('VERIF_C01_PREC', n_prec))      # development aid only
+    fresh = fresh + [s for s in pspecs if s['id'] in acc_ids][:n_prec]
     for s in fresh:
-        s['seeds'] = [rng.randrange(10 ** 6) for _ in range(n_inst)]
+        instances(s, n_inst)
     t0 = time.time()
     todo = shipped + corpus + pgforms + fresh
     cres = run_asm(ctx, todo, xdg, timeout=6000 if thorough else 3000)
@@ -673,7 +1012,9 @@ META = {
                   'through an injective slot layout, then r += code(e) -- computes at every Gauss node the C06 value of the scheduled forest '
                   '(kernel_denotes_integrand, kernel_body_accumulates), hence the entry is the Gauss sum over the joint support of that value and, under '
                   'locality, over all Gauss nodes (entry_denotes_gauss_sum, entry_denotes_full_gauss_sum); for any field, any number of axes, any well-formed '
-                  'schedule; symmetric variables and the two-phase precompute statement are not covered. Front end = C06. Tied to /repo on every run by exact comparison (inside Coq) of sizes, offsets, slots, derivative '
+                  'schedule; symmetric variables and the two-phase precompute statement are not covered. Concrete syntax (coq/C01/Printer.v): the token '
+                  'stream gencode_* prints (every binary node bracketed, prefix minus, f(...)) parses back, with the operator precedence of C, to the tree '
+                  'it was printed from, for every tree (printed_code_parses_back). Front end = C06. Tied to /repo on every run by exact comparison (inside Coq) of sizes, offsets, slots, derivative '
                   'strides/offsets, support ranges on synthetic inputs and on every generated form. NOT proved: that Cython/gcc -O3 -ffast-math/libm compute the '
                   'emitted arithmetic and that modules build and load; this is tested: shipped assemblers, a fixed corpus of 11 custom forms and freshly '
                   'generated forms are built, loaded and every sampled entry compared with an independent interpreter of the un-finalized form '
